@@ -55,10 +55,36 @@ def sets_ec(fx, f_, memo):
             wr.append(n_)
         elif n_['k'] == 'call' and any(is_node(a_) and q.render(f_, q.strip_casts(a_)) == ec for a_ in n_.get('args', [])) and 'error_code &' in (n_.get('csig') or ''):
             gs = [g for g in fx.by_usr(n_.get('usr')) if g.cfg is not None] if n_.get('usr') else []
+            if gs:
+                import inline
+                gs = [inline.inlined_func(fx, gs[0])]        # judged in the same view the rules see (helpers spliced in)
             if not gs or sets_ec(fx, gs[0], memo):      # passed on as an out-parameter (bind(..., ec)); a callee without a body here (boost) is taken to report
                 wr.append(n_)
-    memo[f_.usr] = bool(wr) and q.on_all_paths(f_, wr)
+    memo[f_.usr] = bool(wr) and _covered(f_, wr)
     return memo[f_.usr]
+
+
+def _covered(f_, wr):
+    """Every entry->exit path passes one of wr.  A bool helper spliced into this view whose every return is a constant is
+    followed consistently: the branch taken on its result is the one that goes with the return that was passed
+    (`if (!pick_local_address(..., ec)) return ...;` - the false returns all follow an ec.assign, the true return leads to
+    the callee that reports)."""
+    if q.on_all_paths(f_, wr):
+        return True
+    for hc in [n for n in f_.all_nodes() if n['k'] == 'call' and n.get('inlined') and is_node(n.get('inl'))]:
+        nested = {id(y) for n2 in walk(hc['inl']) if n2['k'] == 'call' and n2.get('inlined') and is_node(n2.get('inl')) for y in walk(n2['inl']) if y['k'] == 'ireturn'}
+        irs = [x for x in walk(hc['inl']) if x['k'] == 'ireturn' and x.get('e') is not None and id(x) not in nested]
+        consts = [q.strip_casts(x['e']) for x in irs]
+        if not irs or not all(is_node(c) and c.get('k') == 'bool' for c in consts):
+            continue
+        ok = True
+        for v in (True, False):
+            other = [x for x, c in zip(irs, consts) if c.get('v') != v]
+            if q.exit_reachable_under(f_, None, wr + other, lambda atom, v=v, hc=hc: v if q.strip_casts(atom) is hc else None):
+                ok = False
+        if ok:
+            return True
+    return False
 
 
 def ec_sets_rule(run, names):
